@@ -48,6 +48,12 @@ async fn send_val(tx: &Sender<Rec>, v: u32) -> bool {
 /// `senders` producer threads each send `per` messages; the receiver thread
 /// receives until the channel is closed (all senders dropped).
 fn channel_body(cap: usize, senders: usize, per: usize, close_by_receiver_after: Option<usize>) {
+    channel_body_x(cap, senders, per, close_by_receiver_after, false)
+}
+
+/// With `drop_receiver`, the receiver is dropped (instead of closed) after the given number
+/// of receptions: every sender still blocked on the full mailbox must be resumed and fail.
+fn channel_body_x(cap: usize, senders: usize, per: usize, close_by_receiver_after: Option<usize>, drop_receiver: bool) {
     let got = Arc::new(StdMutex::new(Vec::new()));
     let mut rx: Receiver<Rec> = Receiver::new(cap);
     let mut model = Rec { got: got.clone() };
@@ -82,6 +88,9 @@ fn channel_body(cap: usize, senders: usize, per: usize, close_by_receiver_after:
             loop {
                 if let Some(limit) = close_by_receiver_after {
                     if n == limit {
+                        if drop_receiver {
+                            break;
+                        }
                         rx.close();
                     }
                 }
@@ -110,7 +119,12 @@ fn channel_body(cap: usize, senders: usize, per: usize, close_by_receiver_after:
     let mut g = got.clone();
     a.sort();
     g.sort();
-    assert_eq!(a, g, "[mailbox_lossless] accepted {:?} but received {:?}", accepted, got);
+    if drop_receiver {
+        // Messages accepted but still queued when the receiver went away are dropped with it.
+        assert!(g.iter().all(|v| a.contains(v)), "[mailbox_lossless] received {:?} but only {:?} were accepted", got, accepted);
+    } else {
+        assert_eq!(a, g, "[mailbox_lossless] accepted {:?} but received {:?}", accepted, got);
+    }
     if close_by_receiver_after.is_none() {
         assert_eq!(got.len(), senders * per, "[mailbox_lossless] {} of {} messages received", got.len(), senders * per);
     }
@@ -136,6 +150,13 @@ pub fn c12() -> Vec<Item> {
     ] {
         v.push(
             Item::new(&format!("channel/cap{}/{}x{}/close{:?}", cap, senders, per, close), 50_000, bq, bt, move || channel_body(cap, senders, per, close))
+                .caps(300_000, 30_000_000),
+        );
+    }
+    // The receiver is dropped while several senders are blocked on the full mailbox.
+    for (cap, senders, per, after, bq, bt) in [(1usize, 2usize, 2usize, 1usize, 2usize, 3usize), (1, 3, 1, 0, 2, 3), (2, 3, 2, 1, 1, 2)] {
+        v.push(
+            Item::new(&format!("channel/cap{}/{}x{}/drop_receiver_after{}", cap, senders, per, after), 50_000, bq, bt, move || channel_body_x(cap, senders, per, Some(after), true))
                 .caps(300_000, 30_000_000),
         );
     }
